@@ -288,7 +288,14 @@ def run_case(case, ctx):
         ctx.fail(f"C16/input_workspace_rejected/{type(exc).__name__}", message=str(exc)[:200])
         return
     try:
-        C = pyhf.Workspace.combine(wa, wb, join=join, merge_channels=merge)
+        # arguments at their documented default (join='none', merge_channels=False) are left out: the defaults
+        # are part of what is advertised
+        ckw = {}
+        if join != "none":
+            ckw["join"] = join
+        if merge:
+            ckw["merge_channels"] = True
+        C = pyhf.Workspace.combine(wa, wb, **ckw)
         got_kind = "ok"
     except E.InvalidWorkspaceOperation:
         C, got_kind = None, "InvalidWorkspaceOperation"
